@@ -23,6 +23,7 @@ func init() {
 }
 
 func runC20(c *core.Ctx) {
+	defer ruleEOFIdentity(c)
 	c.Check("C20-R1", "pdf.(*FileInfo).checkObjects/broken", "an incomplete or malformed object is reported as broken instead of aborting the scan: the continue edge is taken for malformed errors and for bare end-of-input, every other error is returned", func(o *core.Ob) {
 		fn := c.Prog.Func("pdf", "(*FileInfo).checkObjects")
 		g := fn.Graph()
@@ -413,4 +414,222 @@ func foldStringVar(c *core.Ctx, short string, e ast.Expr) string {
 		return ""
 	}
 	return fold(e, 6)
+}
+
+// ruleEOFIdentity (C20-R6): checkObjects recognises a truncated object by
+// comparing the parse error with io.EOF / io.ErrUnexpectedEOF by identity
+// (or by IsMalformed).  Every function that hands the error up to it
+// unchanged must therefore keep a bare end-of-input recognisable: a wrapper
+// (pdf.Wrap, fmt.Errorf) applied to it must first turn end-of-input into a
+// malformed-file error, or skip it.  The chain is followed from the doRead
+// call through "return ..., err" of callee errors (depth 3); deferred
+// closures are evaluated for the abstract values EOF, UnexpectedEOF.
+func ruleEOFIdentity(c *core.Ctx) {
+	const rule = "C20-R6"
+	start := c.Prog.Func("pdf", "(*FileInfo).doRead")
+	ioPkgObj := func(info *types.Info, e ast.Expr) string {
+		sel, ok := ast.Unparen(e).(*ast.SelectorExpr)
+		if !ok {
+			return ""
+		}
+		if obj := info.ObjectOf(sel.Sel); obj != nil && obj.Pkg() != nil && obj.Pkg().Path() == "io" {
+			return obj.Name()
+		}
+		return ""
+	}
+	isWrapCall := func(info *types.Info, e ast.Expr) bool {
+		call, ok := ast.Unparen(e).(*ast.CallExpr)
+		if !ok {
+			return false
+		}
+		k := core.CalleeKey(info, call)
+		return k == "pdf.Wrap" || k == "fmt.Errorf" || k == "errors.Join"
+	}
+	// chain
+	chain := []*core.Func{start}
+	seen := map[*core.Func]bool{start: true}
+	for depth, frontier := 0, []*core.Func{start}; depth < 3 && len(frontier) > 0; depth++ {
+		var next []*core.Func
+		for _, fn := range frontier {
+			info := fn.Info()
+			// callees whose error result is assigned to a variable that is returned as the error
+			errVars := map[types.Object]bool{}
+			ast.Inspect(fn.Decl.Body, func(n ast.Node) bool {
+				if rs, ok := n.(*ast.ReturnStmt); ok && len(rs.Results) > 0 {
+					if obj := core.ObjOf(info, rs.Results[len(rs.Results)-1]); obj != nil {
+						errVars[obj] = true
+					}
+				}
+				return true
+			})
+			if fn.Decl.Type.Results != nil {
+				for _, f := range fn.Decl.Type.Results.List {
+					for _, nm := range f.Names {
+						if core.IsErrorType(info.TypeOf(f.Type)) {
+							errVars[info.Defs[nm]] = true
+						}
+					}
+				}
+			}
+			ast.Inspect(fn.Decl.Body, func(n ast.Node) bool {
+				as, ok := n.(*ast.AssignStmt)
+				if !ok || len(as.Rhs) != 1 {
+					return true
+				}
+				call, ok := ast.Unparen(as.Rhs[0]).(*ast.CallExpr)
+				if !ok {
+					return true
+				}
+				last := as.Lhs[len(as.Lhs)-1]
+				if obj := core.ObjOf(info, last); obj == nil || !errVars[obj] {
+					return true
+				}
+				if callee := core.Callee(info, call); callee != nil {
+					if cf := c.Prog.FuncOf(callee); cf != nil && !seen[cf] && cf.Key != "pdf.Wrap" {
+						seen[cf] = true
+						chain = append(chain, cf)
+						next = append(next, cf)
+					}
+				}
+				return true
+			})
+		}
+		frontier = next
+	}
+	c.Floor(rule, 5)
+	for _, fn := range chain {
+		fn := fn
+		c.Check(rule, fn.Key, "a bare end-of-input error leaves the function as io.EOF, io.ErrUnexpectedEOF or a malformed-file error, never inside a generic wrapper", func(o *core.Ob) {
+			info := fn.Info()
+			o.At(fn.Site(fn.Decl, "hands parse errors up to checkObjects"))
+			o.Count(1)
+			// (1) explicit wrapping returns
+			g := fn.Graph()
+			for _, r := range g.Returns() {
+				rs := r.AST.(*ast.ReturnStmt)
+				if len(rs.Results) == 0 {
+					continue
+				}
+				e := rs.Results[len(rs.Results)-1]
+				if !isWrapCall(info, e) {
+					continue
+				}
+				o.Count(1)
+				// the wrapped value: an error variable; is end-of-input excluded on every path here?
+				call := ast.Unparen(e).(*ast.CallExpr)
+				var ev types.Object
+				for _, a := range call.Args {
+					if obj := core.ObjOf(info, a); obj != nil && core.IsErrorType(obj.Type()) {
+						ev = obj
+					}
+				}
+				if ev == nil {
+					continue // a new error, not a wrapped one
+				}
+				excluded := g.GuardedBy(r, func(a core.Atom) bool {
+					cmp, ok := a.AsCmp()
+					return ok && cmp.Op == token.NEQ && core.ObjOf(info, cmp.L) == ev && ioPkgObj(info, cmp.R) == "EOF"
+				})
+				if !excluded {
+					o.FailAt(fn.Site(rs, ""), "%s: the error is returned inside a wrapper without excluding io.EOF: checkObjects no longer recognises the truncated object", c.Prog.Pos(rs.Pos()))
+				}
+			}
+			// (2) deferred closures rewriting the named error result
+			var named types.Object
+			if fn.Decl.Type.Results != nil {
+				for _, f := range fn.Decl.Type.Results.List {
+					for _, nm := range f.Names {
+						if core.IsErrorType(info.TypeOf(f.Type)) {
+							named = info.Defs[nm]
+						}
+					}
+				}
+			}
+			if named == nil {
+				return
+			}
+			for _, ds := range g.Defers {
+				dl, ok := ds.Call.Fun.(*ast.FuncLit)
+				if !ok {
+					continue
+				}
+				lg := fn.LitGraph(dl)
+				for _, initial := range []string{"EOF", "ErrUnexpectedEOF"} {
+					o.Count(1)
+					// abstract walk: value of the named result; "wrapped" is the bad outcome
+					type st struct {
+						v   *core.V
+						val string
+					}
+					seenSt := map[st]bool{}
+					work := []st{{lg.Entry, initial}}
+					for len(work) > 0 {
+						cur := work[len(work)-1]
+						work = work[:len(work)-1]
+						if seenSt[cur] || cur.v == nil {
+							continue
+						}
+						seenSt[cur] = true
+						val := cur.val
+						if as, ok := cur.v.AST.(*ast.AssignStmt); ok {
+							for i, l := range as.Lhs {
+								if core.ObjOf(info, l) != named || len(as.Rhs) != len(as.Lhs) {
+									continue
+								}
+								r := as.Rhs[i]
+								switch {
+								case ioPkgObj(info, r) != "":
+									val = ioPkgObj(info, r)
+								case isWrapCall(info, r):
+									val = "wrapped"
+									o.FailAt(fn.Site(as, ""), "%s: when the function fails with a bare io.%s the deferred function turns it into a generic wrapper (%s): checkObjects compares by identity and aborts the scan instead of marking the object broken", c.Prog.Pos(as.Pos()), initial, c.Prog.Src(r))
+								default:
+									if ue, ok := ast.Unparen(r).(*ast.UnaryExpr); ok && ue.Op == token.AND {
+										if cl, ok := ue.X.(*ast.CompositeLit); ok && core.IsNamed(info.TypeOf(cl), "pdf", "MalformedFileError") {
+											val = "malformed"
+											break
+										}
+									}
+									if core.IsNil(info, r) {
+										val = "nil"
+										break
+									}
+									val = "other"
+								}
+							}
+						}
+						if val == "wrapped" {
+							continue
+						}
+						take := core.EdgeNone
+						if cur.v.Cond != nil && cur.v.Cond.Expr != nil && cur.v.Cond.Tag == nil {
+							if be, ok := ast.Unparen(cur.v.Cond.Expr).(*ast.BinaryExpr); ok && (be.Op == token.EQL || be.Op == token.NEQ) && core.ObjOf(info, be.X) == named {
+								var eq, known bool
+								if n := ioPkgObj(info, be.Y); n != "" {
+									known = val == "EOF" || val == "ErrUnexpectedEOF" || val == "malformed" || val == "nil"
+									eq = val == n
+								} else if core.IsNil(info, be.Y) {
+									known = val != "other"
+									eq = val == "nil"
+								}
+								if known {
+									if eq == (be.Op == token.EQL) {
+										take = core.EdgeTrue
+									} else {
+										take = core.EdgeFalse
+									}
+								}
+							}
+						}
+						for _, e := range cur.v.Succs {
+							if take != core.EdgeNone && e.Label != core.EdgeNone && e.Label != take {
+								continue
+							}
+							work = append(work, st{e.To, val})
+						}
+					}
+				}
+			}
+		})
+	}
 }
